@@ -30,8 +30,11 @@ type strFn struct {
 }
 
 type trCtx struct {
-	known map[string]string // Go function name -> Coq name, same package
-	err   string
+	known  map[string]string // Go function name -> Coq name, same package
+	err    string
+	sel    func(*ast.SelectorExpr) string // other receivers than info (content.Type ...), "" when unknown
+	consts map[string]string              // package-level string constants, by name
+	eqSeqb bool                           // comparisons as seqb a b (also against ""), not as nonempty
 }
 
 func (c *trCtx) fail(format string, a ...any) string {
@@ -51,10 +54,18 @@ func (c *trCtx) expr(e ast.Expr) string {
 			return coqStr(s)
 		}
 	case *ast.Ident:
+		if v, ok := c.consts[x.Name]; ok {
+			return coqStr(v)
+		}
 		return "v_" + x.Name
 	case *ast.ParenExpr:
 		return c.expr(x.X)
 	case *ast.SelectorExpr:
+		if c.sel != nil {
+			if v := c.sel(x); v != "" {
+				return v
+			}
+		}
 		if id, ok := x.X.(*ast.Ident); ok && id.Name == "info" {
 			if x.Sel.Name == "Arch" {
 				return "arch"
@@ -133,6 +144,13 @@ func (c *trCtx) cond(e ast.Expr) string {
 		case token.LOR:
 			return "(" + c.cond(x.X) + " || " + c.cond(x.Y) + ")"
 		case token.NEQ, token.EQL:
+			if c.eqSeqb {
+				r := "(seqb " + c.expr(x.X) + " " + c.expr(x.Y) + ")"
+				if x.Op == token.NEQ {
+					r = "(negb " + r + ")"
+				}
+				return r
+			}
 			if s, ok := strLit(x.Y); ok && s == "" {
 				if x.Op == token.NEQ {
 					return "(nonempty " + c.expr(x.X) + ")"
@@ -456,4 +474,74 @@ func genArchFns(repo, out string) {
 		fmt.Fprintf(&b, "(* %s: func %s *)\nDefinition src_%s_arch (tab : list (str * str)) (i : minfo) (arch : str) : str :=\n  %s.\nDefinition src_%s_arch_table : str := %s.\nDefinition src_%s_arch_translated : bool := true.\n\n", t.file, t.fn, t.name, body, t.name, coqStr(table), t.name)
 	}
 	writeIfChanged(filepath.Join(out, "ArchFns.v"), b.String())
+}
+
+
+// ---- boolean decision functions: if cond { return true|false } ... return true|false ----
+func (c *trCtx) boolStmts(ss []ast.Stmt, ind string) string {
+	if len(ss) == 0 {
+		return "(" + c.fail("a path that does not return") + " : bool)"
+	}
+	lit := func(e ast.Expr) string {
+		if id, ok := e.(*ast.Ident); ok && (id.Name == "true" || id.Name == "false") {
+			return id.Name
+		}
+		return "(" + c.fail("return of something else than true or false") + " : bool)"
+	}
+	switch x := ss[0].(type) {
+	case *ast.ReturnStmt:
+		if len(x.Results) == 1 {
+			return lit(x.Results[0])
+		}
+	case *ast.IfStmt:
+		if x.Init == nil && x.Else == nil && len(x.Body.List) == 1 {
+			if r, ok := x.Body.List[0].(*ast.ReturnStmt); ok && len(r.Results) == 1 {
+				return "if " + c.cond(x.Cond) + " then " + lit(r.Results[0]) + "\n" + ind + "else " + c.boolStmts(ss[1:], ind)
+			}
+		}
+	}
+	return "(" + c.fail("statement outside the subset") + " : bool)"
+}
+
+func genBoolFns(repo, out string) {
+	f := parseFile(filepath.Join(repo, "files/files.go"))
+	c := &trCtx{consts: stringConsts(f), eqSeqb: true}
+	c.sel = func(se *ast.SelectorExpr) string {
+		if id, ok := se.X.(*ast.Ident); ok && id.Name == "content" {
+			switch se.Sel.Name {
+			case "Packager":
+				return "(c_pkgr c)"
+			case "Type":
+				return "(c_typ c)"
+			case "Source":
+				return "(c_src c)"
+			case "Destination":
+				return "(c_dst c)"
+			}
+		}
+		return ""
+	}
+	body := "false"
+	found := false
+	for _, d := range f.Decls {
+		if fd, ok := d.(*ast.FuncDecl); ok && fd.Name.Name == "isRelevantForPackager" && fd.Body != nil {
+			found = true
+			if len(fd.Type.Params.List) != 2 || fd.Type.Params.List[0].Names[0].Name != "packager" || fd.Type.Params.List[1].Names[0].Name != "content" {
+				c.fail("parameters are not (packager, content)")
+			}
+			body = c.boolStmts(fd.Body.List, "  ")
+		}
+	}
+	if !found {
+		c.fail("no function isRelevantForPackager in files/files.go")
+	}
+	var b strings.Builder
+	b.WriteString("(* GENERATED from /repo (files/files.go) on every run by translators/strfn.go (genBoolFns) - do not edit *)\n")
+	b.WriteString("From Coq Require Import List String Bool.\nFrom Coq Require Import Strings.Byte.\nFrom NfpmV Require Import Lib.Bytes Model.Content.\nImport ListNotations.\nOpen Scope bool_scope.\n\n")
+	if c.err != "" {
+		fmt.Fprintf(&b, "(* isRelevantForPackager: UNTRANSLATABLE - %s *)\nDefinition src_is_relevant (v_packager : str) (c : content) : bool := false.\nDefinition src_is_relevant_translated : bool := false.\n", c.err)
+	} else {
+		fmt.Fprintf(&b, "(* func isRelevantForPackager(packager string, content *Content) bool *)\nDefinition src_is_relevant (v_packager : str) (c : content) : bool :=\n  %s.\nDefinition src_is_relevant_translated : bool := true.\n", body)
+	}
+	writeIfChanged(filepath.Join(out, "BoolFns.v"), b.String())
 }
